@@ -20,8 +20,8 @@ import multiprocessing
 from . import codec
 from .outcome import HarnessAbort
 
-RUN_WATCHDOG_S = 90          # one run may never take this long; exceeding it is a harness error
-CHUNK_HARD_S = 900           # faulthandler hard exit for a worker stuck in C code
+RUN_WATCHDOG_S = 240         # one run may never take this long; exceeding it is a harness error
+CHUNK_HARD_S = 3000          # faulthandler hard exit for a worker stuck in C code
 
 
 def derive_seed(base, prop, tier, index):
@@ -140,7 +140,7 @@ def isolated(fn, *args, **kw):
             os._exit(code)
     os.close(w)
     chunks = []
-    deadline = RUN_WATCHDOG_S * 2
+    deadline = CHUNK_HARD_S + 60     # (a chunk of 32 runs; each run has its own alarm inside the child)
     try:
         while True:
             ready, _, _ = select.select([r], [], [], deadline)
